@@ -43,5 +43,60 @@ def mcClosed (m : α) (ps ss : List α) : List α := mcClosedFrom m 0 ps ss
 def mcNumbers (a m s : α) (n : Nat) : List α :=
   (List.range n).map fun (k : Nat) => fmod (a + (((k : Nat) : Int) : α) * s) m
 
+/-! ### durations and piecewise-linear shapes
+
+`durLen dur = ⌊dur + 1/2⌋` samples (none when that is negative).  The shapes are given sample
+by sample, as functions of the index. -/
+
+section Shapes
+variable [LT α] [DecidableLT α]
+
+/-- documented number of samples of a duration -/
+def durLen (dur : α) : Nat := (Floor.floor (dur + half) : Int).toNat
+
+/-- `line`: `int(dur+.5)` samples `begin + i·(end-begin)/(dur-finish)` -/
+def lineSpec (dur begin_ end_ : α) (finish : Bool) : List α :=
+  (List.range (durLen dur)).map fun (i : Nat) =>
+    begin_ + (((i : Int) : α) * (end_ - begin_)) / (dur - (if finish then 1 else 0))
+
+/-- `ones` / `zeros`: `durLen dur` copies (endless for `none`), observed through `n` reads -/
+def constSpec (v : α) (dur : Option α) (n : Nat) : List α :=
+  match dur with
+  | none => List.replicate n v
+  | some d => List.replicate (min n (durLen d)) v
+
+/-- `impulse`: `durLen dur` samples, the first is `one`, all others `zero` -/
+def impulseSpec {β : Type} (dur : Option α) (one zero : β) (n : Nat) : List β :=
+  let len := match dur with
+    | none => n
+    | some d => min n (durLen d)
+  (List.range len).map fun i => if i = 0 then one else zero
+
+/-- ADSR envelope at sample `i`, with segment lengths `la ld ls lr`:
+    0 → 1 over `a`, 1 → `s` over `d`, `s` held, `s` → 0 over `r` -/
+def adsrAt (a d s r : α) (la ld ls : Nat) (i : Nat) : α :=
+  if i < la then (((i : Int) : α)) / a
+  else if i < la + ld then 1 + ((((i - la : Nat) : Int) : α)) * (s - 1) / d
+  else if i < la + ld + ls then s
+  else s - ((((i - la - ld - ls : Nat) : Int) : α)) * s / r
+
+/-- `adsr`: the sustain fills what `dur` leaves after attack, decay and release -/
+def adsrSpec (dur a d s r : α) : List α :=
+  let la := durLen a
+  let ld := durLen d
+  let lr := durLen r
+  let ls := durLen dur - la - ld - lr
+  (List.range (la + ld + ls + lr)).map (adsrAt a d s r la ld ls)
+
+/-- `attack` with sustain level `s0`, followed by the sustain samples `sus` -/
+def attackSpec (a d s0 : α) (sus : List α) (n : Nat) : List α :=
+  let la := durLen a
+  let ld := durLen d
+  (((List.range (la + ld)).map fun (i : Nat) =>
+      if i < la then (((i : Int) : α)) / a
+      else 1 + ((((i - la : Nat) : Int) : α)) * (s0 - 1) / d) ++ sus).take n
+
+end Shapes
+
 end Arith
 end ALV.C19
